@@ -340,6 +340,12 @@ func negPairs(all bool, step int64, diag bool) []NegCase {
 			if b <= a {
 				out = append(out, NegCase{IdealOpener: a, IdealOther: b, CapOpener: 1, CapOther: capOther})
 			}
+			// the tightest admissible cap: MaxFee == the other's ideal. On the grid, and
+			// wherever the opener capitulates to the first counter-offer (b within 30%
+			// of a, +1), i.e. where its proposal hits the cap exactly.
+			if a < b && (all || ((a-negFeeLo)%25 == 0 && (b-negFeeLo)%25 == 0) || b <= a+(a*3)/10+1) {
+				out = append(out, NegCase{IdealOpener: a, IdealOther: b, CapOpener: 0, CapOther: capOther})
+			}
 		}
 	}
 	return out
@@ -350,9 +356,93 @@ func negSource(typ string, openerB bool) Source {
 		{By: 0, Amt: 50_000_123, Fate: "settle"}, {By: 1, Amt: 60_000_001, Fate: "settle"}}}}
 }
 
+// leaseThaw is the absolute thaw height of chanmc's lease channels (checked
+// against the channel in every job that uses it).
+const leaseThaw = 500_000
+
+// negLowSources: 1 000 000 sat channels in which the non-opener's balance sits at
+// {0, dust-1, dust, dust+1} (the estimator and the tx builder see one output
+// only / just two) and one in which the opener's output flips with the fee
+// (gross = dust + 250, or commit fee + anchors if that is more).
+func negLowSources(typ string, openerB bool) []Source {
+	var out []Source
+	opener := 0
+	if openerB {
+		opener = 1
+	}
+	const kw = 253
+	d := [2]int64{200, 1300}
+	mk := func(x int, g int64) {
+		grossA := g
+		if x == 1 {
+			grossA = lowCap - g
+		}
+		if grossA <= 0 || grossA > lowCap {
+			return // GrossA == 0 means "default" in chanmc
+		}
+		out = append(out, Source{P: chanmc.Params{Type: typ, OpenerB: openerB, CapacitySat: lowCap, GrossA: grossA, ReserveSat: 1,
+			DustA: d[0], DustB: d[1], FeePerKw: kw}})
+	}
+	x := 1 - opener
+	for _, g := range []int64{0, d[x] - 1, d[x], d[x] + 1} {
+		mk(x, g)
+	}
+	g := d[opener] + 250
+	if cr := credit(typ, kw); cr > g {
+		g = cr
+	}
+	mk(opener, g)
+	return out
+}
+
+// negLowCases: ideal fees {100..400} (identity) / rates {200..500} sat/kw (lnd's
+// estimator: 110..386 sat on 552..772 wu), every cap variant; closer and offer order rotate
+// over the cases in quick, are crossed in thorough.
+func negLowCases(thorough bool) []NegCase {
+	var out []NegCase
+	k := 0
+	for _, est := range []string{"", "simple"} {
+		vals := []int64{100, 175, 250, 325, 400}
+		if est == "simple" {
+			vals = []int64{200, 275, 350, 425, 500}
+		}
+		for _, a := range vals {
+			for _, b := range vals {
+				if b > 3*a || a > 3*b || (est != "" && (b >= 3*a || a >= 3*b)) {
+					continue
+				}
+				caps := []int{3}
+				if b <= a {
+					caps = append(caps, 1)
+				}
+				if a < b {
+					caps = append(caps, 0)
+				}
+				for _, cp := range caps {
+					for closer := 0; closer < 3; closer++ {
+						for e := 0; e < 2; e++ {
+							if !thorough && (closer != k%3 || e != (k/3)%2) {
+								continue
+							}
+							out = append(out, NegCase{IdealOpener: a, IdealOther: b, CapOpener: cp, CapOther: 3, Closer: closer, EarlyOffer: e == 1,
+								SA: scriptKinds[k%3], SB: scriptKinds[(k/3+1)%3], Estimator: est})
+						}
+					}
+					k++
+				}
+			}
+		}
+	}
+	return out
+}
+
 func negJob(src Source, cases []NegCase, name string) job {
 	return job{name: name, part: "legacy", f: func(h *harness) {
 		h.withPair(src, func(p *pair) {
+			if thaw, _ := p.ch[0].AbsoluteThawHeight(); p.typName == "lease" && thaw != leaseThaw {
+				h.harnessError(herr("lease thaw height is %d, the plan assumes %d", thaw, leaseThaw))
+				return
+			}
 			for i := range cases {
 				if h.expired() {
 					return
@@ -378,20 +468,56 @@ func negJobs(thorough bool) []job {
 	for _, typ := range chanmc.AllTypes {
 		for _, ob := range []bool{false, true} {
 			var cs []NegCase
-			for closer := 0; closer < 2; closer++ {
+			add := func(k int, c NegCase, closer int, early bool) {
+				c.Closer, c.EarlyOffer = closer, early
+				sc := scriptKinds[(k+closer)%3]
+				c.SA, c.SB = sc, scriptKinds[(k+1)%3]
+				cs = append(cs, c)
+			}
+			tap := chanmc.ChanTypes[typ].IsTaproot()
+			for closer := 0; closer < 3; closer++ {
 				for _, early := range []bool{false, true} {
 					for k, c := range coarse {
-						if chanmc.ChanTypes[typ].IsTaproot() && k%5 != 0 {
+						if tap && k%5 != 0 {
 							continue // taproot: the responder accepts the first offer, pairs hardly matter
 						}
-						c.Closer, c.EarlyOffer = closer, early
-						sc := scriptKinds[(k+closer)%3]
-						c.SA, c.SB = sc, scriptKinds[(k+1)%3]
-						cs = append(cs, c)
+						if closer == 2 && !thorough && !tap && k%2 != 0 {
+							continue // both send shutdown at once: every second pair in quick
+						}
+						add(k, c, closer, early)
 					}
 				}
 			}
+			// upfront shutdown scripts on both sides; a frozen (lease) channel exactly at
+			// its thaw height
+			for k, c := range coarse {
+				if !thorough && k%3 != 0 {
+					continue
+				}
+				cu := c
+				cu.Upfront = true
+				add(k, cu, k%3, k%2 == 0)
+				if typ == "lease" {
+					ch := c
+					ch.Height = leaseThaw
+					add(k, ch, k%2, k%4 < 2)
+					ch.Closer = 0
+				}
+			}
 			jobs = append(jobs, negJob(negSource(typ, ob), cs, fmt.Sprintf("legacy %s/openerB=%v grid", typ, ob)))
+		}
+	}
+	// (3) negotiation on low balances: one output absent or flipping with the fee,
+	// with the harness estimator and with lnd's own SimpleCoopFeeEstimator
+	types := quickDustTypes
+	if thorough {
+		types = chanmc.AllTypes
+	}
+	for _, typ := range types {
+		for _, ob := range []bool{false, true} {
+			for _, src := range negLowSources(typ, ob) {
+				jobs = append(jobs, negJob(src, negLowCases(thorough), "legacy low "+src.Name()))
+			}
 		}
 	}
 	// (1) the full pair set on two base configurations
